@@ -252,6 +252,8 @@ func TestVerifC07(t *testing.T) {
 
 	// ---------------- product A: policy resolution x structural flags ----------------
 	polSets := append([][]string{nil}, subsets([]string{"default", "p1", "p2", "root"})...)
+	// spellings that name the same policies after normalisation (policy names are case-insensitive and trimmed)
+	polSets = append(polSets, []string{"Root"}, []string{"ROOT", "p1"}, []string{" root"}, []string{"P2"}, []string{"Default", "rOOt"}, []string{"Response-Wrapping"})
 	var paramsA []c07Params
 	for _, ps := range polSets {
 		for _, np := range []bool{false, true} {
@@ -466,20 +468,25 @@ func TestVerifC07(t *testing.T) {
 			for _, ttl := range []int{0, 600, 100000 * 3600} {
 				for _, typ := range []logical.TokenType{logical.TokenTypeDefault, logical.TokenTypeService, logical.TokenTypeBatch} {
 					for _, period := range []int{0, 1200} {
+					for _, mx := range [][2]int{{0, 0}, {7200, 3600}, {7200, 0}, {0, 3600}} { // backend max, explicit max
+						if mx != [2]int{0, 0} && (len(ps) > 1 || typ == logical.TokenTypeDefault) {
+							continue // the lifetime dimensions are crossed with the single-policy selections only
+						}
 						count++
 						if !vout.Mine(count) {
 							continue
 						}
-						ps, ttl, typ, period := ps, ttl, typ, period
+						ps, ttl, typ, period, mx := ps, ttl, typ, period, mx
 						s.Rec.mu.Lock()
 						s.Rec.LoginAuth = func(req *logical.Request) *logical.Auth {
 							return &logical.Auth{Policies: ps, TokenType: typ, Period: time.Duration(period) * time.Second,
-								LeaseOptions: logical.LeaseOptions{TTL: time.Duration(ttl) * time.Second, Renewable: true}}
+								ExplicitMaxTTL: time.Duration(mx[1]) * time.Second,
+								LeaseOptions: logical.LeaseOptions{TTL: time.Duration(ttl) * time.Second, MaxTTL: time.Duration(mx[0]) * time.Second, Renewable: true}}
 						}
 						s.Rec.mu.Unlock()
 						resp, err := s.Req("", logical.UpdateOperation, "auth/ra/login", map[string]interface{}{})
 						res.Add("evaluations", 1)
-						art := map[string]interface{}{"login_policies": ps, "ttl": ttl, "type": typ.String(), "period": period}
+						art := map[string]interface{}{"login_policies": ps, "ttl": ttl, "type": typ.String(), "period": period, "backend_max_ttl": mx[0], "explicit_max_ttl": mx[1]}
 						if !OK(resp, err) || resp == nil || resp.Auth == nil {
 							res.Add("refused", 1)
 							res.Distinct("nontrivial", fmt.Sprintf("login|%v|refused", ps))
@@ -499,11 +506,18 @@ func TestVerifC07(t *testing.T) {
 						if m.ttl > c07MountMax.Seconds()+2 {
 							res.Violate("c07:login:ttl-exceeds-mount-max", fmt.Sprintf("login with ttl %ds produced ttl %v", ttl, m.ttl), art)
 						}
+						if mx[1] > 0 && m.ttl > float64(mx[1])+2 {
+							res.Violate("c07:login:ttl-exceeds-explicit-max", fmt.Sprintf("login (%v) produced ttl %v, explicit max is %ds", art, m.ttl, mx[1]), art)
+						}
+						if mx[0] > 0 && period == 0 && m.ttl > float64(mx[0])+2 {
+							res.Violate("c07:login:ttl-exceeds-backend-max", fmt.Sprintf("login (%v) produced ttl %v, the backend's max is %ds", art, m.ttl, mx[0]), art)
+						}
 						if m.ttl == 0 {
 							res.Violate("c07:login:non-expiring-token", fmt.Sprintf("login produced a token that never expires (%v)", art), art)
 						}
 						sort.Strings(m.policies)
-						res.Distinct("nontrivial", fmt.Sprintf("login|%v|%s|p=%v", m.policies, m.tokenType, period > 0))
+						res.Distinct("nontrivial", fmt.Sprintf("login|%v|%s|p=%v|mx=%v", m.policies, m.tokenType, period > 0, mx))
+					}
 					}
 				}
 			}
